@@ -336,7 +336,7 @@ impl<'l> Context<'l>
 				{
 					if self.active().is_none()
 					{
-						self.push_error(Positioned{line: element.line, col: element.line, value: AsmErrorKind::Inactive});
+						self.push_error(Positioned{line: element.line, col: element.col, value: AsmErrorKind::Inactive});
 						return Err(ErrorLevel::Fatal);
 					}
 					if let Err(e) = self.assemble_instr(element.line, element.col, name.as_ref(), args)
